@@ -84,7 +84,26 @@ def gen_dsu(w: Prng) -> dict:
             a = w.below(64)
             b = a + 1 if w.chance(0.3) else w.below(64)
             steps.append({"k": k, "a": a, "b": b})
-    return {"n": n, "steps": steps}
+    rp = w.stream("repeat_pairs")
+    for i, st in enumerate(steps):
+        # the same ordered pair asked about and united again later, with other unions in between (ask, re-root one
+        # side elsewhere, then unite the pair that was asked about)
+        earlier = [e for e in steps[:i] if e["k"] in ("union", "same")]
+        if st["k"] in ("union", "same") and earlier and rp.chance(0.3):
+            e = earlier[-1 - rp.below(min(3, len(earlier)))]
+            st["a"], st["b"] = (e["a"], e["b"]) if rp.chance(0.8) else (e["b"], e["a"])
+    out = []
+    for st in steps:
+        if st["k"] == "union" and rp.chance(0.15):
+            # the idiom `if not is_same_set(a, b): ... union_sets(a, b)` with other unions in between that touch
+            # one of the two sides
+            out.append({"k": "same", "a": st["a"], "b": st["b"]})
+            for _ in range(rp.randint(1, 2)):
+                side = st["a"] if rp.chance(0.5) else st["b"]
+                other = rp.below(64)
+                out.append({"k": "union", "a": other, "b": side} if rp.chance(0.5) else {"k": "union", "a": side, "b": other})
+        out.append(st)
+    return {"n": n, "steps": out}
 
 
 def gen_table(w: Prng) -> dict:
@@ -200,6 +219,10 @@ def gen_roots(w: Prng, sp: Prng) -> dict:
                 forest[key] = [forest[key][o] for o in order]
             forest["pid"] = [(-1 if pid[o] == -1 else new_row[pid[o]]) for o in order]
             forest["lead"] = len(lead)
+    bb = w.stream("bigbase")
+    if bb.chance(0.12):
+        # sample numbers beyond 2**53: distinct as integers, not as double-precision floats
+        forest["base"] = bb.choice([2**53 + 1, 2**53 + 2**20 + 1, 2**60 + 7])
     reads = []
     for _ in range(w.randint(1, 4)):
         fix = w.choice([False, "somas", "nearest"])
@@ -303,7 +326,10 @@ def run_dsu(program: dict, world: World, out: dict):
         # and the pairwise view on the real object for the pair just touched
         if k in ("union", "same"):
             a, b = s["a"] % n, s["b"] % n
-            got = guarded("is_same_set", lambda: dsu.is_same_set(a, b))
+            # two steps in three on a deep copy: the oracle's own question must not become part of the history of
+            # the structure under test (it would overwrite whatever the structure remembers of its last query)
+            target = dsu if si % 3 == 0 else copy.deepcopy(dsu)
+            got = guarded("is_same_set", lambda: target.is_same_set(a, b))
             if bool(got) != model.same(a, b):
                 raise Bad("dsu_wrong", f"is_same_set_after:{k}", f"is_same_set({a},{b}) = {got}")
         out["states"].append("p" + ",".join(str(x) for x in model.label))
